@@ -780,7 +780,7 @@ func (m *c09Mon) check(op, res string, cur *c09Snap) {
 			continue
 		}
 		// set_canonical_requires_agreement: a new designation
-		if f[0] != "lc_setcanon" {
+		if f[0] != "lc_setcanon" && !(f[0] == "tx" && strings.Contains(op, "lc_setcanon ")) {
 			m.violate("C09/set_canonical_requires_agreement/designated-by-another-op", op)
 		}
 		cl := cur.Clients[c]
@@ -831,13 +831,35 @@ func (m *c09Mon) check(op, res string, cur *c09Snap) {
 			if f[0] == "update" && pc == nil {
 				which = "fork-resolution-writes-disagreeing-consensus-state"
 			}
+			if f[0] == "tx" {
+				which = "conflicting-items-accepted-in-one-transaction"
+			}
 			if why := agree(cs, d, true); why != "" {
 				m.violate("C09/later_conflict_rejected/"+which,
 					fmt.Sprintf("r%d c%d height %d: consensus state %+v vs descriptor %+v disagree (%s) after %s", r, c, cs.H, *cs, *d, why, op))
 			}
 		}
 	}
-	m.c06(f, kv, res, prev, cur)
+	if f[0] == "tx" {
+		// the per-message clauses, for every message of a transaction that went through as a whole
+		if res == "ok" {
+			for _, sub := range c09TxSubs(op) {
+				sf := strings.Fields(sub)
+				m.c06(sf, parseKV(sf), "ok", prev, cur)
+				m.perMsg(sf, parseKV(sf), "ok", sub, prev, cur)
+			}
+		} else {
+			m.c06(f, kv, res, prev, cur)
+		}
+	} else {
+		m.c06(f, kv, res, prev, cur)
+		m.perMsg(f, kv, res, op, prev, cur)
+	}
+	m.channels(op, prev, cur)
+}
+
+// perMsg: the clauses about one client message (signer_rules, nested_update_rejected, misbehaviour_rejected)
+func (m *c09Mon) perMsg(f []string, kv map[string]string, res, op string, prev, cur *c09Snap) {
 	switch f[0] {
 	case "lc_update":
 		ci, _ := m.h.clientByTok(f[1])
@@ -880,7 +902,10 @@ func (m *c09Mon) check(op, res string, cur *c09Snap) {
 			}
 		}
 	}
-	// first_channel_only
+}
+
+// channels: first_channel_only
+func (m *c09Mon) channels(op string, prev, cur *c09Snap) {
 	for r, ch := range prev.ChOf {
 		if c2, ok := cur.ChOf[r]; !ok || c2 != ch {
 			m.violate("C09/first_channel_only/canonical-channel-changed", fmt.Sprintf("r%d: %d -> %v by %s", r, ch, cur.ChOf[r], op))
@@ -1473,6 +1498,11 @@ func (c *c09Gen) next(cs *coreSnap, ls *c09Snap, inBlock *bool) string {
 			return fmt.Sprintf("bond_dec a%d amt=%d", a, 1+g.Intn(500))
 		}
 	}
+	if len(mine) > 0 && g.Chance(9) {
+		if l := c.txLine(ri, ra, cs, ls, mine); l != "" {
+			return l
+		}
+	}
 	k := g.Intn(100)
 	switch {
 	case len(ls.Clients) < 6 && (len(mine) == 0 || k < 8):
@@ -1611,7 +1641,12 @@ func c09RunTrace(t *testing.T, r *Run, lines []string, g *Rng, nOps int) {
 			mon.check(op, "ok", ls)
 			continue
 		}
-		res, ibc := h.exec(op)
+		var res, ibc string
+		if f[0] == "tx" {
+			res, op = h.execTx(op) // the oracle verdicts are filled in (generated line) or checked (replayed line) per sub-op
+		} else {
+			res, ibc = h.exec(op)
+		}
 		if ibc != "" {
 			// oracle: recorded on generated lines, checked on replayed ones
 			kv := parseKV(f)
@@ -1693,6 +1728,17 @@ func c09Directed() [][]string {
 		cat(ra0, []string{up(1, 3), honest,
 			"lc_update c0 w=top h=5 root=6 ts=50 nv=1 ps=x1 pd=x1 rev=0 trusted=2 vals=a0:10:1,x1:1:0 tvals=a0:1:1", "lc_setcanon c0",
 			"update r0 by=a0 start=4 num=3 rev=0 last=0 bdlen=3 seqerr=- ts=all drs=1 rooterr=- roots=5,99,7 tss=40,50,60", up(4, 3)}),
+		// ONE transaction [MsgUpdateState(heights 4..5), MsgUpdateClient(header for 5 with another root)]: the ante handler sees the
+		// header before the state update exists (optimistic), the hook sees the state update before the consensus state exists
+		cat(ra0, []string{up(1, 3), honest, "lc_setcanon c0",
+			"tx " + up(4, 2) + " ;; lc_update c0 w=top h=5 root=99 ts=50 nv=1 ps=a0 pd=a0 rev=0 trusted=2 vals=a0:1:1 tvals=a0:1:1",
+			up(6, 1), "begin dt=1000000000", "end fail=-"}),
+		// the same with the header for a height inside the batch
+		cat(ra0, []string{up(1, 3), honest, "lc_setcanon c0",
+			"tx " + up(4, 2) + " ;; lc_update c0 w=top h=4 root=99 ts=40 nv=1 ps=a0 pd=a0 rev=0 trusted=2 vals=a0:1:1 tvals=a0:1:1", up(6, 1)}),
+		// mirrored order: the header first — the hook of the state update then finds the consensus state and refuses, the transaction is atomic
+		cat(ra0, []string{up(1, 3), honest, "lc_setcanon c0",
+			"tx lc_update c0 w=top h=5 root=99 ts=50 nv=1 ps=a0 pd=a0 rev=0 trusted=2 vals=a0:1:1 tvals=a0:1:1 ;; " + up(4, 2), up(4, 2)}),
 		// happy path: designation, honest optimistic header, agreeing state update, channel
 		cat(ra0, []string{up(1, 3), honest, "lc_setcanon c0",
 			"lc_update c0 w=top h=5 root=6 ts=50 nv=1 ps=a0 pd=a0 rev=0 trusted=2 vals=a0:1:1 tvals=a0:1:1", up(4, 3),
